@@ -272,6 +272,9 @@ class Interp:
         if k == "idx":
             return self.load(frame, e)
         if k == "un":
+            if e[1] == "-" and e[2][0] == "lit" and e[2][1] == "&" and e[2][2] == 32768:
+                # a numeric literal directly after a unary minus keeps the narrowest type: -32768 is an INTEGER
+                return ("%", -32768)
             x = self.eval(frame, e[2])
             if x[0] == "$":
                 raise Discard("type")
